@@ -323,7 +323,9 @@ def make_hook(run, g, v, lvl, stats, shapes):
                 pdt = None
                 if len(path) >= 2 and not isinstance(path[-2], Segment):
                     pdt = path[-2].datatype
-                if back != text:
+                # a value below a bare varies element is not encoded at all (F19, C09's finding): not a position matter
+                varies = any((not isinstance(q, Segment)) and q.datatype == 'varies' for q in path)
+                if back != text and not varies:
                     run.fail('write-not-readable', 'the value written through a chain reads back as %r, not %r' % (back, text),
                              depth=len(names), target_datatype=dtp, parent_datatype=pdt, version=v, level=lvl,
                              ops=g.ops + [op], step=kk)
